@@ -98,13 +98,19 @@ def Path.oid (p : Path) : Oid := p.dir ++ p.file
 
 def dirs : List String := ["u1", "u2", "bb", "root", "odd"]
 def files : List String := ["a", "b", "c"]
+/-- the inheriting blueprint of the harness mudlib: /c20/u1/i.c is nothing but `inherit "/c20/u2/a";` -/
+def inhChild : Path := ⟨"u1", "i"⟩
+def inhParent : Path := ⟨"u2", "a"⟩
+/-- the blueprint a file inherits (its program must be loaded before the file compiles) -/
+def Path.parent (p : Path) : Option Path := if p = inhChild then some inhParent else none
+
 /-- the source files present in harness/mudlib/c20 -/
-def Path.exists (p : Path) : Bool := dirs.contains p.dir && files.contains p.file
+def Path.exists (p : Path) : Bool := (dirs.contains p.dir && files.contains p.file) || decide (p = inhChild)
 
 def masterOid : Oid := "m"
 def simulOid : Oid := "se"
 /-- object ids a clone may not take: the master's, the simul_efun object's and the blueprints' own ids -/
-def reservedOids : List Oid := masterOid :: simulOid :: dirs.flatMap (fun d => files.map (fun f => d ++ f))
+def reservedOids : List Oid := masterOid :: simulOid :: "u1i" :: dirs.flatMap (fun d => files.map (fun f => d ++ f))
 
 structure Obj where
   oid : Oid
@@ -313,6 +319,7 @@ def doLoad (cfg : Cfg) (pol : Policy) (i : Nat) (w : World) (A : Obj) (p : Path)
 def clonePre (w : World) (A : Obj) (newOid : Oid) (p : Path) : Option Res :=
   if newOid ∈ reservedOids ∨ getO w.objs newOid ≠ none then some .nobj
   else if p.name ∉ w.loaded ∧ getO w.objs p.oid ≠ none then some .nobj
+  else if p.name ∉ w.loaded ∧ p.parent ≠ none then some .nobj      -- harness: inheriting blueprints are loaded, not cloned unloaded
   else if A.oid ≠ masterOid ∧ A.euid = none then some (.err .noEuidClone)
   else none
 
@@ -474,15 +481,28 @@ def loadCreates (w : World) (A : Obj) (p : Path) : Bool :=
   decide (¬ ((p.name ∉ w.loaded ∨ p.name ∈ w.half) ∧ getO w.objs p.oid ≠ none) ∧ p.name ∉ w.loaded ∧
     ¬ (A.oid ≠ masterOid ∧ A.euid = none) ∧ p.exists = true)
 
-/-- load_object of an ordinary (non virtual) path from world `w` -/
-def execLoadCore (cfg : Cfg) (pol : Policy) (i : Nat) (sub : Sub) (w : World) (a : Oid) (A : Obj) (p : Path)
-    (first : Bool) : World × List StepRec :=
+/-- load_object of an ordinary (non virtual) path `p` from world `w`, as part of the op `op` (the load op itself, or the load of
+    the file that inherits `p`).  `k = some ..`: the nested load_object of an inherited file - after its create() the caller
+    goes on (`k`) instead of returning a result -/
+def execLoadCore (cfg : Cfg) (pol : Policy) (i : Nat) (sub : Sub) (w : World) (a : Oid) (A : Obj) (p : Path) (op : Op)
+    (first : Bool) (k : Option (World → World × List StepRec)) : World × List StepRec :=
   let x := doLoad cfg pol i w A p
   match createdNow x.2.1 with
-  | none => singleF a (.load p) x first
+  | none => singleF a op x first
   | some o =>
     let y := sub x.1 o.oid p.name
-    (y.1, seg x.1 a (.load p) none x.2.1 none first :: y.2 ++ [seg y.1 a (.load p) none [] (some x.2.2.2) false])
+    match k with
+    | none => (y.1, seg x.1 a op none x.2.1 none first :: y.2 ++ [seg y.1 a op none [] (some x.2.2.2) false])
+    | some k =>
+      let z := k y.1
+      (z.1, seg x.1 a op none x.2.1 none first :: y.2 ++ z.2)
+
+/-- valid_object, creator_file (with the master's callback), creation and create() script of blueprint `p` -/
+def loadPlain (cfg : Cfg) (pol : Policy) (i : Nat) (run : Run) (sub : Sub) (w : World) (a : Oid) (A : Obj) (p : Path) (op : Op)
+    (first : Bool) (k : Option (World → World × List StepRec)) : World × List StepRec :=
+  withVo pol i (loadCreates w A p) w a op first p.name fun f0 =>
+    withCfPre pol i run (loadCreates w A p) w a op f0 p.name
+      (fun W A2 f => execLoadCore cfg pol i sub W a A2 p op f k)
 
 def execLoad (cfg : Cfg) (pol : Policy) (i : Nat) (run : Run) (sub : Sub) (w : World) (a : Oid) (A : Obj) (p : Path) :
     World × List StepRec :=
@@ -490,9 +510,17 @@ def execLoad (cfg : Cfg) (pol : Policy) (i : Nat) (run : Run) (sub : Sub) (w : W
     let v := virtCore pol i run w a (.load p) true p false
     (v.1, v.2.1 ++ [seg v.1 a (.load p) none [] (some v.2.2.res) v.2.1.isEmpty])
   else
-    withVo pol i (loadCreates w A p) w a (.load p) true p.name fun f0 =>
-      withCfPre pol i run (loadCreates w A p) w a (.load p) f0 p.name
-        (fun W A2 f => execLoadCore cfg pol i sub W a A2 p f)
+    match p.parent with
+    | some q =>
+      if loadCreates w A p = true ∧ q.name ∉ w.loaded then
+        -- compiling `p` finds the program it inherits missing: load_object(q) for the SAME current_object (its own euid test,
+        -- valid_object, creator_file, create()), then load_object(p) starts again from the top (test repeated)
+        loadPlain cfg pol i run sub w a A q (.load p) true (some fun W =>
+          match getO W.objs a with
+          | none => (W, [seg W a (.load p) none [] (some .nobj) false])
+          | some A' => loadPlain cfg pol i run sub W a A' p (.load p) false none)
+      else loadPlain cfg pol i run sub w a A p (.load p) true none
+    | none => loadPlain cfg pol i run sub w a A p (.load p) true none
 
 /-- second half of clone_object from world `w` (after the blueprint's create() script): the clone is made by the
     same object `A'` with the uids it has now, then the clone's create() script runs -/
